@@ -367,4 +367,56 @@ theorem handleRx_other (e e' : Ep) (m : Msg) (em : Emit) (hm : isOther m = true)
     exact ⟨fun q => Iff.rfl, rfl, rfl, rfl, rfl, rfl⟩
   | _ => simp [isOther] at hm
 
+theorem maybeFree_sub (e : Ep) (p q : Nat) (st : PortSt) (h : lookup (maybeFree e p).ports q = some st) :
+    lookup e.ports q = some st := by
+  unfold maybeFree at h
+  split at h
+  · split at h
+    · rw [lookup_erase] at h
+      by_cases hq : q = p
+      · simp [hq] at h
+      · simpa [hq] using h
+    · exact h
+  · exact h
+
+/-- entries after "set the entry of `p`, then `maybe_free_port p`" -/
+theorem maybeFree_set_cases (e : Ep) (p : Nat) (c1 : Connected) (p' : Nat) (st : PortSt)
+    (h : lookup (maybeFree { e with ports := setPort e.ports p (.connected c1) } p).ports p' = some st) :
+    (p' = p ∧ st = .connected c1) ∨ (p' ≠ p ∧ lookup e.ports p' = some st) := by
+  have := maybeFree_sub _ _ _ _ h
+  simp only [lookup_setPort] at this
+  by_cases hq : p' = p
+  · left; simp only [hq, if_true, Option.some.injEq] at this; exact ⟨hq, this.symm⟩
+  · right; simp only [hq, if_false] at this; exact ⟨hq, this⟩
+
+theorem setPort_cases (ps : List (Nat × PortSt)) (p : Nat) (s1 : PortSt) (p' : Nat) (st : PortSt)
+    (h : lookup (setPort ps p s1) p' = some st) :
+    (p' = p ∧ st = s1) ∨ (p' ≠ p ∧ lookup ps p' = some st) := by
+  simp only [lookup_setPort] at h
+  by_cases hq : p' = p
+  · left; simp only [hq, if_true, Option.some.injEq] at h; exact ⟨hq, h.symm⟩
+  · right; simp only [hq, if_false] at h; exact ⟨hq, h⟩
+
+/-- when `maybe_free_port` removes the entry, all four flags were set -/
+theorem maybeFree_removed (e : Ep) (p : Nat) (c : Connected) (h : lookup e.ports p = some (.connected c))
+    (hn : lookup (maybeFree e p).ports p = none) : c.free = true := by
+  unfold maybeFree at hn
+  rw [h] at hn
+  simp only [] at hn
+  by_cases hf : c.free
+  · exact hf
+  · simp only [hf, Bool.false_eq_true, if_false, h] at hn; simp at hn
+
+theorem maybeFree_lookup (e : Ep) (p q : Nat) :
+    lookup (maybeFree e p).ports q = lookup e.ports q ∨ (q = p ∧ lookup (maybeFree e p).ports q = none) := by
+  unfold maybeFree
+  split
+  · split
+    · rw [lookup_erase]
+      by_cases hq : q = p
+      · right; simp [hq]
+      · left; simp [hq]
+    · left; rfl
+  · left; rfl
+
 end Remoc.Table.Sys
